@@ -129,4 +129,479 @@ theorem fmax_inf (dt : DT) (x : Val) : ufuncCell "fmax" dt (.inf true) x = x := 
 theorem fmin_inf (dt : DT) (x : Val) : ufuncCell "fmin" dt (.inf false) x = x := by
   simp [ufuncCell, Val.fmin]
 
+
+theorem parseDTCode_bits_pos {s : String} {b : Nat} {sg : Bool}
+    (h : parseDTCode s = some (.int b sg)) : 0 < b := by
+  unfold parseDTCode at h
+  split at h <;> simp at h <;> omega
+
+/-! ### the dense specification: `validInputs` -/
+
+section spec
+variable {V : Type}
+
+theorem validInputs_nil (c : Cfg) (vc : VCfg V) (p : Nat) : validInputs c vc [] p = [] := rfl
+
+theorem validInputs_cons (c : Cfg) (vc : VCfg V) (m : State V) (ms : List (State V)) (p : Nat) :
+    validInputs c vc (m :: ms) p =
+      if vc.valid (abs c vc m p) = true then abs c vc m p :: validInputs c vc ms p
+      else validInputs c vc ms p := by
+  by_cases h : vc.valid (abs c vc m p) = true <;> simp [validInputs, h]
+
+theorem validInputs_length_le (c : Cfg) (vc : VCfg V) (ms : List (State V)) (p : Nat) :
+    (validInputs c vc ms p).length ≤ ms.length :=
+  List.length_filterMap_le _ _
+
+theorem validInputs_length_eq_iff (c : Cfg) (vc : VCfg V) (ms : List (State V)) (p : Nat) :
+    (validInputs c vc ms p).length = ms.length ↔ ∀ m ∈ ms, vc.valid (abs c vc m p) = true := by
+  induction ms with
+  | nil => simp [validInputs_nil]
+  | cons m ms ih =>
+    rw [validInputs_cons]
+    have hle := validInputs_length_le c vc ms p
+    split
+    · rename_i hm
+      simp only [List.length_cons, List.mem_cons, forall_eq_or_imp, hm, true_and]
+      rw [← ih]; omega
+    · rename_i hm
+      constructor
+      · intro h; simp only [List.length_cons] at h; omega
+      · intro h; exact absurd (h m List.mem_cons_self) hm
+
+theorem validInputs_eq_nil_iff (c : Cfg) (vc : VCfg V) (ms : List (State V)) (p : Nat) :
+    validInputs c vc ms p = [] ↔ ∀ m ∈ ms, vc.valid (abs c vc m p) = false := by
+  unfold validInputs
+  rw [List.filterMap_eq_nil_iff]
+  constructor
+  · intro h m hm
+    have := h m hm
+    cases hval : vc.valid (abs c vc m p) with
+    | false => rfl
+    | true => simp [hval] at this
+  · intro h m hm
+    simp [h m hm]
+
+theorem validInputs_valid (c : Cfg) (vc : VCfg V) (ms : List (State V)) (p : Nat) :
+    ∀ x ∈ validInputs c vc ms p, vc.valid x = true := by
+  intro x hx
+  unfold validInputs at hx
+  obtain ⟨m, _, hm⟩ := List.mem_filterMap.1 hx
+  split at hm
+  · rename_i hval
+    cases hm
+    exact hval
+  · cases hm
+
+/-- a fold seeded with a neutral start value is the un-seeded fold -/
+theorem foldl_neutral (f : V → V → V) (e : V) (vs : List V) (hne : vs ≠ [])
+    (hneutral : ∀ x ∈ vs, f e x = x) :
+    vs.foldl f e = (vs.tail).foldl f (vs.headD e) := by
+  cases vs with
+  | nil => exact absurd rfl hne
+  | cons v rest =>
+    simp only [List.foldl_cons, List.tail_cons, List.headD_cons]
+    rw [hneutral v List.mem_cons_self]
+
+theorem foldl_neutral_match (f : V → V → V) (e s : V) (vs : List V) (hne : vs ≠ [])
+    (hneutral : ∀ x ∈ vs, f e x = x) :
+    vs.foldl f e = (match (generalizing := false) vs with | [] => s | v :: rest => rest.foldl f v) := by
+  cases vs with
+  | nil => exact absurd rfl hne
+  | cons v rest =>
+    simp only [List.foldl_cons]
+    rw [hneutral v List.mem_cons_self]
+
+/-- contribution of the maps `ms` (numbered from `i`) to the cell of pixel `p`, as the loop of
+    `_apply_operation` computes it -/
+def cellFold (c : Cfg) (vc : VCfg V) (f : V → V → V) (fillFirst : Bool) (p : Nat) :
+    List (State V) → Nat → V → V
+  | [], _, x => x
+  | m :: rest, i, x =>
+    cellFold c vc f fillFirst p rest (i + 1)
+      (if vc.valid (abs c vc m p) = true then
+        (if (i == 0 && fillFirst) = true then abs c vc m p else f x (abs c vc m p))
+       else x)
+
+theorem cellFold_plain (c : Cfg) (vc : VCfg V) (f : V → V → V) (fillFirst : Bool) (p : Nat)
+    (ms : List (State V)) (i : Nat) (x : V) (h : fillFirst = false ∨ 0 < i) :
+    cellFold c vc f fillFirst p ms i x = (validInputs c vc ms p).foldl f x := by
+  induction ms generalizing i x with
+  | nil => rfl
+  | cons m ms ih =>
+    have hfirst : (i == 0 && fillFirst) = false := by
+      rcases h with h | h
+      · simp [h]
+      · have : (i == 0) = false := by simp; omega
+        simp [this]
+    rw [cellFold, validInputs_cons, hfirst, ih _ _ (Or.inr (Nat.succ_pos i))]
+    split
+    · simp
+    · rfl
+
+theorem cellFold_first (c : Cfg) (vc : VCfg V) (f : V → V → V) (p : Nat)
+    (m : State V) (ms : List (State V)) (x : V) (hm : vc.valid (abs c vc m p) = true) :
+    cellFold c vc f true p (m :: ms) 0 x = (validInputs c vc ms p).foldl f (abs c vc m p) := by
+  rw [cellFold, cellFold_plain _ _ _ _ _ _ _ _ (Or.inr (Nat.succ_pos 0))]
+  simp [hm]
+
+end spec
+
+/-! ### one map: the scatter performed by `multiStep` -/
+
+section step
+variable {V : Type}
+
+theorem denseFold_diag (g : V → Nat → V) (L : List Nat) (hnd : L.Nodup) (p : Nat) (x : V) :
+    denseFold g (L.map fun q => (q, q)) p x = if p ∈ L then g x p else x := by
+  induction L generalizing x with
+  | nil => simp [denseFold]
+  | cons q qs ih =>
+    rw [List.nodup_cons] at hnd
+    have hstep : denseFold g ((q :: qs).map fun q => (q, q)) p x =
+        denseFold g (qs.map fun q => (q, q)) p (if q = p then g x q else x) := rfl
+    rw [hstep, ih hnd.2]
+    by_cases hq : q = p
+    · subst hq
+      simp [hnd.1]
+    · have : ¬ p = q := fun h => hq h.symm
+      simp [hq, this]
+
+/-- the fold of `multiStep` over a list of (non-negative) pixel numbers, as two scatters -/
+theorem multiStep_fold (c : Cfg) (vc : VCfg V) (covOut : Array Int) (f : V → V → V) (first : Bool)
+    (m : State V) (cell : Nat → Nat)
+    (hcell : ∀ q : Nat, cell q = (((q : Nat) : Int) + rd covOut (q >>> c.shift) 0).toNat)
+    (L : List Nat) (acc : MultiAcc V) :
+    (L.map fun q => ((q : Nat) : Int)).foldl (fun acc p =>
+      let pn := p.toNat
+      let idx := ((p : Int) + rd covOut (pn >>> c.shift) 0).toNat
+      let v := abs c vc m pn
+      ({ sp := acc.sp.modify idx (fun x => if first then v else f x v)
+         touch := acc.touch.modify idx (· + 1) } : MultiAcc V)) acc =
+    { sp := scatter (fun x q => if first then abs c vc m q else f x (abs c vc m q)) acc.sp
+              ((L.map fun q => (q, q)).map fun pw => (cell pw.1, pw.2))
+      touch := scatter (fun x (_ : Nat) => x + 1) acc.touch
+              ((L.map fun q => (q, q)).map fun pw => (cell pw.1, pw.2)) } := by
+  induction L generalizing acc with
+  | nil => rfl
+  | cons q qs ih =>
+    simp only [List.map_cons, List.foldl_cons, scatter]
+    rw [ih]
+    simp only [Int.toNat_natCast, hcell, scatter]
+
+variable [DecidableEq V] {c : Cfg} {vc : VCfg V}
+
+theorem Inv.idxOf_inj {s : State V} (h : Inv c vc s) {p q : Nat} (hp : p < c.npix)
+    (hq : q < c.npix) (hc : covered c s (p >>> c.shift) = true)
+    (he : idxOf c s q = idxOf c s p) : q = p := by
+  have hi := h.idxOf_covered hp hc
+  cases hcq : covered c s (q >>> c.shift) with
+  | true =>
+    have hiq := h.idxOf_covered hq hcq
+    exact (h.lookup_inj hp hq hc (by rw [hi.2.2, hiq.2.2, he])).symm
+  | false =>
+    have hiq := h.idxOf_uncovered hq hcq
+    omega
+
+/-- effect of one map on the accumulator, read at the cell of a pixel inside the combined
+    coverage (`E` carries the output index; its storage is irrelevant) -/
+theorem multiStep_spec (E : State V) (hE : Inv c vc E) (f : V → V → V) (first : Bool)
+    (acc : MultiAcc V) (m : State V) (hm : Inv c vc m) (hv : vc.valid vc.sentinel = false)
+    (hsz : acc.sp.size = E.sp.size) (hszt : acc.touch.size = E.sp.size) :
+    ∃ acc', multiStep c vc E.cov f first acc m = some acc' ∧
+      acc'.sp.size = E.sp.size ∧ acc'.touch.size = E.sp.size ∧
+      ∀ p, p < c.npix → covered c E (p >>> c.shift) = true →
+        (∀ d, rd acc'.sp (idxOf c E p) d =
+          if vc.valid (abs c vc m p) = true then
+            (if first = true then abs c vc m p else f (rd acc.sp (idxOf c E p) d) (abs c vc m p))
+          else rd acc.sp (idxOf c E p) d) ∧
+        rd acc'.touch (idxOf c E p) 0 =
+          rd acc.touch (idxOf c E p) 0 + (if vc.valid (abs c vc m p) = true then 1 else 0) := by
+  let L := (validCells vc m).map (pixOfCell c m)
+  have hfold := multiStep_fold c vc E.cov f first m (idxOf c E) (fun q => rfl) L acc
+  refine ⟨{ sp := scatter (fun x q => if first then abs c vc m q else f x (abs c vc m q)) acc.sp
+              ((L.map fun q => (q, q)).map fun pw => (idxOf c E pw.1, pw.2))
+            touch := scatter (fun x (_ : Nat) => x + 1) acc.touch
+              ((L.map fun q => (q, q)).map fun pw => (idxOf c E pw.1, pw.2)) }, ?_, ?_, ?_, ?_⟩
+  · unfold multiStep
+    rw [hm.validPixels_eq hv, Option.map_some]
+    exact congrArg some hfold
+  · simp only [scatter_size, hsz]
+  · simp only [scatter_size, hszt]
+  · intro p hp hc
+    have hi := hE.idxOf_covered hp hc
+    have hinj : ∀ qw ∈ (L.map fun q => (q, q)), idxOf c E qw.1 = idxOf c E p → qw.1 = p := by
+      intro qw hqw he
+      obtain ⟨q, hq, rfl⟩ := List.mem_map.1 hqw
+      exact hE.idxOf_inj hp ((hm.mem_validCells_map hv q).1 hq).1 hc he
+    have hmem : p ∈ L ↔ vc.valid (abs c vc m p) = true := by
+      rw [hm.mem_validCells_map hv p]
+      exact ⟨fun h => h.2, fun h => ⟨hp, h⟩⟩
+    have hnd : L.Nodup := hm.nodup_validCells_map hv
+    constructor
+    · intro d
+      rw [scatter_rd_map _ acc.sp _ (idxOf c E) p d (by rw [hsz]; exact hi.2.1) hinj,
+        denseFold_diag _ L hnd]
+      simp only [hmem]
+    · rw [scatter_rd_map _ acc.touch _ (idxOf c E) p 0 (by rw [hszt]; exact hi.2.1) hinj,
+        denseFold_diag _ L hnd]
+      simp only [hmem]
+      split <;> rfl
+
+/-- loop invariant of `multiLoop` -/
+theorem multiLoop_spec (E : State V) (hE : Inv c vc E) (f : V → V → V) (fillFirst : Bool)
+    (hv : vc.valid vc.sentinel = false) (ms : List (State V)) (hms : ∀ m ∈ ms, Inv c vc m)
+    (i : Nat) (acc : MultiAcc V)
+    (hsz : acc.sp.size = E.sp.size) (hszt : acc.touch.size = E.sp.size) :
+    ∃ acc', multiLoop c vc E.cov f fillFirst ms i acc = some acc' ∧
+      acc'.sp.size = E.sp.size ∧ acc'.touch.size = E.sp.size ∧
+      ∀ p, p < c.npix → covered c E (p >>> c.shift) = true →
+        (∀ d, rd acc'.sp (idxOf c E p) d =
+          cellFold c vc f fillFirst p ms i (rd acc.sp (idxOf c E p) d)) ∧
+        rd acc'.touch (idxOf c E p) 0 =
+          rd acc.touch (idxOf c E p) 0 + (validInputs c vc ms p).length := by
+  induction ms generalizing i acc with
+  | nil => exact ⟨acc, rfl, hsz, hszt, fun p _ _ => ⟨fun d => rfl, rfl⟩⟩
+  | cons m ms ih =>
+    obtain ⟨acc1, h1, hsz1, hszt1, hp1⟩ :=
+      multiStep_spec E hE f (i == 0 && fillFirst) acc m (hms m List.mem_cons_self) hv hsz hszt
+    obtain ⟨acc2, h2, hsz2, hszt2, hp2⟩ :=
+      ih (fun m' h' => hms m' (List.mem_cons_of_mem _ h')) (i + 1) acc1 hsz1 hszt1
+    refine ⟨acc2, ?_, hsz2, hszt2, ?_⟩
+    · rw [multiLoop, h1]; exact h2
+    · intro p hp hc
+      obtain ⟨ha, hb⟩ := hp1 p hp hc
+      obtain ⟨ha2, hb2⟩ := hp2 p hp hc
+      constructor
+      · intro d
+        rw [ha2 d, ha d, cellFold]
+      · rw [hb2, hb, validInputs_cons]
+        split <;> simp <;> omega
+
+end step
+
+/-! ### assembling `multiOp` -/
+
+section assemble
+variable {V : Type}
+
+/-- the coverage pixels of the result (`np.where(combined_cov_mask)`) -/
+def combCov (c : Cfg) (maps : List (State V)) (union : Bool) : List Nat :=
+  (List.range c.ncov).filter fun k =>
+    if union then maps.any (fun m => covered c m k) else maps.all (fun m => covered c m k)
+
+/-- the write-back of the sentinel and the overflow reset -/
+def multiFinish (c : Cfg) (vc : VCfg V) (union : Bool) (n : Nat) (acc : MultiAcc V) : Array V :=
+  (acc.sp.mapIdx fun i x =>
+      if union then (if rd acc.touch i 0 == 0 then vc.sentinel else x)
+      else (if rd acc.touch i 0 != n then vc.sentinel else x)).mapIdx
+    fun i x => if i < c.nfine then vc.sentinel else x
+
+theorem multiOp_eq (c : Cfg) (vc : VCfg V) (maps : List (State V)) (f : V → V → V) (filler : V)
+    (union fillFirst : Bool) :
+    multiOp c vc maps f filler union fillFirst =
+      if (combCov c maps union).isEmpty = true then some (makeEmpty c vc [])
+      else
+        (multiLoop c vc (makeEmpty c vc (combCov c maps union)).cov f fillFirst maps 0
+          ⟨Array.replicate (((combCov c maps union).length + 1) * c.nfine) filler,
+           Array.replicate (((combCov c maps union).length + 1) * c.nfine) 0⟩).map fun acc =>
+          { cov := (makeEmpty c vc (combCov c maps union)).cov
+            sp := multiFinish c vc union maps.length acc } := rfl
+
+theorem mem_combCov (c : Cfg) (maps : List (State V)) (union : Bool) (k : Nat) :
+    k ∈ combCov c maps union ↔ k < c.ncov ∧
+      (if union then maps.any (fun m => covered c m k) else maps.all (fun m => covered c m k)) = true := by
+  simp [combCov]
+
+theorem nodup_combCov (c : Cfg) (maps : List (State V)) (union : Bool) :
+    (combCov c maps union).Nodup := List.filter_sublist.nodup List.nodup_range
+
+theorem multiFinish_size (c : Cfg) (vc : VCfg V) (union : Bool) (n : Nat) (acc : MultiAcc V) :
+    (multiFinish c vc union n acc).size = acc.sp.size := by
+  simp [multiFinish]
+
+theorem multiFinish_getElem? (c : Cfg) (vc : VCfg V) (union : Bool) (n : Nat) (acc : MultiAcc V)
+    (j : Nat) (hj : j < acc.sp.size) :
+    (multiFinish c vc union n acc)[j]? = some (
+      if j < c.nfine then vc.sentinel
+      else if union then (if rd acc.touch j 0 == 0 then vc.sentinel else acc.sp[j])
+      else (if rd acc.touch j 0 != n then vc.sentinel else acc.sp[j])) := by
+  simp [multiFinish, hj]
+
+theorem covered_makeEmpty (c : Cfg) (vc : VCfg V) (P : List Nat) (hnd : P.Nodup) (k : Nat)
+    (hk : k < c.ncov) : covered c (makeEmpty c vc P) k = decide (k ∈ P) := by
+  by_cases hm : k ∈ P
+  · obtain ⟨t, ht⟩ := List.getElem?_of_mem hm
+    have : covered c (makeEmpty c vc P) k = true := by
+      rw [covered_eq_true_iff, makeEmpty_blockStart_mem c vc P k t hk hnd ht]
+      exact_mod_cast le_succ_mul _ _
+    simp [this, hm]
+  · have : covered c (makeEmpty c vc P) k = false := by
+      rw [covered_eq_false_iff, makeEmpty_blockStart_not_mem c vc P k hk hm]
+      exact_mod_cast c.nfine_pos
+    simp [this, hm]
+
+variable [DecidableEq V]
+
+/-- outside the combined coverage the specification prescribes the sentinel -/
+theorem denseMulti_uncovered (c : Cfg) (vc : VCfg V) (maps : List (State V)) (f : V → V → V)
+    (filler : V) (union fillFirst : Bool) (hInv : ∀ m ∈ maps, Inv c vc m)
+    (hv : vc.valid vc.sentinel = false) (p : Nat) (hp : p < c.npix)
+    (hnc : (if union then maps.any (fun m => covered c m (p >>> c.shift))
+            else maps.all (fun m => covered c m (p >>> c.shift))) = false) :
+    denseMulti c vc maps f filler union fillFirst p = vc.sentinel := by
+  have hinval : ∀ m ∈ maps, covered c m (p >>> c.shift) = false → vc.valid (abs c vc m p) = false := by
+    intro m hm hc
+    rw [(hInv m hm).abs_uncovered hp hc]; exact hv
+  unfold denseMulti
+  cases union with
+  | true =>
+    simp only [if_true] at hnc ⊢
+    have : validInputs c vc maps p = [] := by
+      rw [validInputs_eq_nil_iff]
+      intro m hm
+      apply hinval m hm
+      cases hc : covered c m (p >>> c.shift) with
+      | false => rfl
+      | true =>
+        have : maps.any (fun m => covered c m (p >>> c.shift)) = true :=
+          List.any_eq_true.2 ⟨m, hm, hc⟩
+        rw [this] at hnc; cases hnc
+    simp [this]
+  | false =>
+    simp only [Bool.false_eq_true, if_false] at hnc ⊢
+    rw [if_neg]
+    rw [validInputs_length_eq_iff]
+    intro hall
+    have : maps.all (fun m => covered c m (p >>> c.shift)) = true := by
+      rw [List.all_eq_true]
+      intro m hm
+      cases hc : covered c m (p >>> c.shift) with
+      | true => rfl
+      | false =>
+        have := hinval m hm hc
+        rw [hall m hm] at this; cases this
+    rw [this] at hnc; cases hnc
+
+omit [DecidableEq V] in
+/-- the specification in terms of the per-cell loop -/
+theorem denseMulti_eq_cellFold (c : Cfg) (vc : VCfg V) (maps : List (State V)) (f : V → V → V)
+    (filler : V) (union fillFirst : Bool) (hne : maps ≠ [])
+    (hff : fillFirst = true → union = false) (p : Nat) :
+    denseMulti c vc maps f filler union fillFirst p =
+      if union = true then
+        (if ((validInputs c vc maps p).length == 0) = true then vc.sentinel
+         else cellFold c vc f fillFirst p maps 0 filler)
+      else
+        (if ((validInputs c vc maps p).length != maps.length) = true then vc.sentinel
+         else cellFold c vc f fillFirst p maps 0 filler) := by
+  unfold denseMulti
+  cases union with
+  | true =>
+    have hf : fillFirst = false := by
+      cases fillFirst with
+      | false => rfl
+      | true => exact absurd (hff rfl) (by decide)
+    subst hf
+    rw [cellFold_plain _ _ _ _ _ _ _ _ (Or.inl rfl)]
+    cases validInputs c vc maps p <;> simp
+  | false =>
+    simp only [Bool.false_eq_true, if_false]
+    by_cases hlen : (validInputs c vc maps p).length = maps.length
+    · have hne' : ((validInputs c vc maps p).length != maps.length) = false := by simp [hlen]
+      rw [if_pos hlen, hne']
+      simp only [Bool.false_eq_true, if_false]
+      cases fillFirst with
+      | false =>
+        simp only [Bool.false_eq_true, if_false]
+        rw [cellFold_plain _ _ _ _ _ _ _ _ (Or.inl rfl)]
+      | true =>
+        simp only [if_true]
+        cases maps with
+        | nil => exact absurd rfl hne
+        | cons m ms =>
+          have hm : vc.valid (abs c vc m p) = true :=
+            (validInputs_length_eq_iff c vc _ p).1 hlen m List.mem_cons_self
+          rw [cellFold_first _ _ _ _ _ _ _ hm, validInputs_cons, if_pos hm]
+    · have hne' : ((validInputs c vc maps p).length != maps.length) = true := by simp [hlen]
+      rw [if_neg hlen, hne']
+      simp
+
+/-- **refinement of `_apply_operation`** (statement of `C06.multiOp_spec`) -/
+theorem multiOp_spec' (c : Cfg) (vc : VCfg V) (maps : List (State V)) (f : V → V → V) (filler : V)
+    (union fillFirst : Bool) (hInv : ∀ m ∈ maps, Inv c vc m) (hv : vc.valid vc.sentinel = false)
+    (hne : maps ≠ []) (hff : fillFirst = true → union = false) :
+    ∃ r, multiOp c vc maps f filler union fillFirst = some r ∧ Inv c vc r ∧
+      (∀ p, p < c.npix → abs c vc r p = denseMulti c vc maps f filler union fillFirst p) ∧
+      (∀ k, k < c.ncov → covered c r k =
+          if union then maps.any (fun m => covered c m k) else maps.all (fun m => covered c m k)) := by
+  rw [multiOp_eq]
+  have hnd := nodup_combCov c maps union
+  have hlt : ∀ k ∈ combCov c maps union, k < c.ncov := fun k hk => ((mem_combCov c maps union k).1 hk).1
+  have hcovE : ∀ k, k < c.ncov → covered c (makeEmpty c vc (combCov c maps union)) k =
+      if union then maps.any (fun m => covered c m k) else maps.all (fun m => covered c m k) := by
+    intro k hk
+    rw [covered_makeEmpty c vc _ hnd k hk, Bool.eq_iff_iff, decide_eq_true_iff, mem_combCov]
+    exact ⟨fun h => h.2, fun h => ⟨hk, h⟩⟩
+  by_cases hemp : (combCov c maps union).isEmpty = true
+  · rw [if_pos hemp]
+    have hnil : combCov c maps union = [] := List.isEmpty_iff.1 hemp
+    rw [hnil] at hcovE
+    refine ⟨_, rfl, inv_makeEmpty' c vc [] List.nodup_nil (by simp), ?_, ?_⟩
+    · intro p hp
+      rw [makeEmpty_abs']
+      symm
+      apply denseMulti_uncovered c vc maps f filler union fillFirst hInv hv p hp
+      rw [← hcovE _ (covpix_lt c p hp), covered_makeEmpty c vc [] List.nodup_nil _ (covpix_lt c p hp)]
+      simp
+    · intro k hk
+      exact hcovE k hk
+  · rw [if_neg hemp]
+    generalize hP : combCov c maps union = P at *
+    have hE : Inv c vc (makeEmpty c vc P) := inv_makeEmpty' c vc P hnd hlt
+    have hEsz : (makeEmpty c vc P).sp.size = (P.length + 1) * c.nfine := by simp [makeEmpty]
+    obtain ⟨acc, hloop, hsz, hszt, hcells⟩ := multiLoop_spec (makeEmpty c vc P) hE f fillFirst hv
+      maps hInv 0
+      ⟨Array.replicate ((P.length + 1) * c.nfine) filler, Array.replicate ((P.length + 1) * c.nfine) 0⟩
+      (by simp [hEsz]) (by simp [hEsz])
+    have hr : Inv c vc ⟨(makeEmpty c vc P).cov, multiFinish c vc union maps.length acc⟩ := by
+      refine inv_of_cov_eq hE rfl (by rw [multiFinish_size, hsz]) ?_
+      intro i hi
+      have hi' : i < acc.sp.size := by rw [hsz]; exact Nat.lt_of_lt_of_le hi hE.nfine_le_size
+      rw [multiFinish_getElem? c vc union _ acc i hi', if_pos hi]
+    refine ⟨⟨(makeEmpty c vc P).cov, multiFinish c vc union maps.length acc⟩, ?_, hr, ?_, ?_⟩
+    · rw [hloop]; rfl
+    · intro p hp
+      have hk := covpix_lt c p hp
+      cases hc : covered c (makeEmpty c vc P) (p >>> c.shift) with
+      | false =>
+        rw [hr.abs_uncovered hp hc]
+        symm
+        apply denseMulti_uncovered c vc maps f filler union fillFirst hInv hv p hp
+        rw [← hcovE _ hk, hc]
+      | true =>
+        obtain ⟨hi1, hi2, _⟩ := hE.idxOf_covered hp hc
+        obtain ⟨hsp, htouch⟩ := hcells p hp hc
+        have hj : idxOf c (makeEmpty c vc P) p < acc.sp.size := by rw [hsz]; exact hi2
+        have habs : abs c vc ⟨(makeEmpty c vc P).cov, multiFinish c vc union maps.length acc⟩ p =
+            rd (multiFinish c vc union maps.length acc) (idxOf c (makeEmpty c vc P) p) vc.sentinel := rfl
+        rw [habs, denseMulti_eq_cellFold c vc maps f filler union fillFirst hne hff p]
+        unfold rd at htouch hsp ⊢
+        rw [multiFinish_getElem? c vc union _ acc _ hj, if_neg (by omega)]
+        have hsp' := hsp vc.sentinel
+        have hinit : (Array.replicate ((P.length + 1) * c.nfine) filler)[idxOf c (makeEmpty c vc P) p]?
+            = some filler := by
+          rw [Array.getElem?_replicate, if_pos (by rw [← hEsz]; exact hi2)]
+        have hinit0 : (Array.replicate ((P.length + 1) * c.nfine) 0)[idxOf c (makeEmpty c vc P) p]?
+            = some 0 := by
+          rw [Array.getElem?_replicate, if_pos (by rw [← hEsz]; exact hi2)]
+        simp only [hinit, hinit0, Option.getD_some, Nat.zero_add] at hsp' htouch
+        rw [Array.getElem?_eq_getElem hj, Option.getD_some] at hsp'
+        have htouch' : rd acc.touch (idxOf c (makeEmpty c vc P) p) 0 =
+            (validInputs c vc maps p).length := htouch
+        simp only [Option.getD_some, htouch', hsp']
+    · intro k hk
+      exact hcovE k hk
+
+end assemble
+
 end HS
